@@ -124,6 +124,9 @@ func (a *Analysis) ruleW() {
 				}
 				for _, br := range *bo.Referrers() {
 					if ifi, ok := br.(*ssa.If); ok {
+						if len(ifi.Block().Succs[0].Preds) != 1 {
+							r.Bad("W2", "main/stop-on-error", a.P.InstrPos(ifi), "", "main's fatal branch is also reached when the update did not fail (the error test is combined with another condition): some lists would not be regenerated")
+						}
 						for _, in := range ifi.Block().Succs[0].Instrs {
 							if cc, ok := in.(ssa.CallInstruction); ok {
 								n := calleeName(cc)
